@@ -97,6 +97,17 @@ func judgeC07(c *fw.Ctx, id string, run *batchRun) {
 		c.Violate(id, "batch:result-length", fmt.Sprintf("%d results for %d calls: %s", len(run.Res), len(run.Calls), b), b)
 		return
 	}
+	if b.Trigger == "" && b.Invalid == "" && run.Elapsed >= b.Deadline {
+		// nothing was cancelled or held and every scripted answer is finite: a batch
+		// that only ends with its 20s deadline was waiting for something that never came
+		for i, res := range run.Res {
+			if isCtxErr(res.Error) {
+				c.Violate(id, "batch:call-waited-until-the-deadline", fmt.Sprintf("slot %d (%s) ended with %v after %v although the servers answered every request: %s",
+					i, run.OpIDs[i], res.Error, run.Elapsed.Round(time.Millisecond), b), b)
+				break
+			}
+		}
+	}
 	cancelling := strings.HasPrefix(b.Trigger, "cancel")
 	if cancelling {
 		c.Count(strings.Replace(b.Trigger, "-", "_", -1), 1)
@@ -226,6 +237,9 @@ func judgeC07(c *fw.Ctx, id string, run *batchRun) {
 }
 
 func isGetOp(run *batchRun, i int) bool {
-	_, ok := run.Calls[i].(*hrpc.Get)
-	return ok
+	switch run.Calls[i].(type) {
+	case *hrpc.Get, *resultWatchGet:
+		return true
+	}
+	return false
 }
